@@ -79,6 +79,7 @@ def ClassDef.hasAttr (c : ClassDef) (m : String) : Bool :=
 inductive CKind
   | mcaller      -- `_m_caller` partial: carries `_watcher_name`
   | bound        -- a bound method passed to `param.watch`
+  | partial      -- `functools.partial(obj.method, tag)` passed to `param.watch`
   deriving DecidableEq, Repr
 
 /-- the callable of a watcher: `(owner object, method name, what='value', changed, callback kind)` -/
@@ -105,6 +106,9 @@ structure PCopy where
   constant : Bool
   /-- Selector: the copy's own `_objects` list and `names` dict (cells; a dict `{'k<v>': v}` is its values) -/
   slots : Option (Nat × Nat) := Option.none
+  /-- watchers of the Parameter attribute `bounds` (`param.watch(.., what='bounds')`): they live in the
+  `watchers` slot of the per-instance Parameter object -/
+  swatchers : List Watcher := []
   deriving DecidableEq, Repr
 
 structure Obj where
@@ -211,10 +215,10 @@ def World.touchParam (w : World) (o : Nat) (p : String) : World :=
       | some d =>
         match (if d.sel = .notSel then Option.none else w.clsSlot ob.cls p) with
         | Option.none =>
-          w.setObj o fun ob => { ob with pcopies := insert ob.pcopies p ⟨d.bounds, false, Option.none⟩ }
+          w.setObj o fun ob => { ob with pcopies := insert ob.pcopies p ⟨d.bounds, false, Option.none, []⟩ }
         | some (co, cn) =>
           ({ w with cells := w.cells ++ [deref w.cells co, deref w.cells cn] }).setObj o fun ob =>
-            { ob with pcopies := insert ob.pcopies p ⟨d.bounds, false, some (w.cells.length, w.cells.length + 1)⟩ }
+            { ob with pcopies := insert ob.pcopies p ⟨d.bounds, false, some (w.cells.length, w.cells.length + 1), []⟩ }
 
 /-- `obj.param._watch(..)`: append to `watchers[name]['value']` for every name -/
 def World.addWatcher (w : World) (wt : Watcher) : World :=
@@ -404,6 +408,8 @@ inductive Op
   | mutAttr (o : Nat) (name : String) (n : Int)            -- `obj.name.append(n)`
   | watch (o : Nat) (p : String) (target : Nat) (cb : String)   -- `obj.param.watch(target.cb, [p])`
   | selAdd (o : Nat) (p : String) (n : Int)                -- `obj.param.p.objects['k<n>'] = n`
+  | watchPartial (o : Nat) (p : String) (target : Nat) (cb : String)   -- `obj.param.watch(partial(target.cb, 'T'), [p])`
+  | watchSlot (o : Nat) (p : String) (target : Nat) (cb : String)      -- `obj.param.watch(target.cb, [p], what='bounds')`
   deriving DecidableEq, Repr
 
 /-- instantiate=True defaults are deep-copied into the new object -/
@@ -491,15 +497,18 @@ def doMutate (w : World) (o : Nat) (p : String) (n : Int) : Except Err World :=
   | some (.cell c) => .ok { w with cells := w.cells.set c (deref w.cells c ++ [n]) }
   | _ => .error .unsupported
 
+/-- `obj.param.p.<attr> = v` -- src: Parameter.__setattr__ / _trigger_event: the watchers of the attribute
+run in registration order, when the value changed (`onlychanged`, tuples compared elementwise) -/
 def doPEdit (w : World) (o : Nat) (p : String) (e : PEdit) : Except Err World :=
   let w := w.touchParam o p
   match (w.objs[o]?).bind (fun ob => lookup ob.pcopies p) with
   | Option.none => .error .unsupported
   | some pc =>
-    let pc' := match e with
-      | .bounds b => { pc with bounds := b }
-      | .constant b => { pc with constant := b }
-    .ok (w.setObj o fun ob => { ob with pcopies := insert ob.pcopies p pc' })
+    match e with
+    | .bounds b =>
+      let w := w.setObj o fun ob => { ob with pcopies := insert ob.pcopies p { pc with bounds := b } }
+      .ok (if pc.bounds = b then w else { w with log := w.log ++ pc.swatchers.map fun wt => (wt.fn.owner, wt.fn.method) })
+    | .constant b => .ok (w.setObj o fun ob => { ob with pcopies := insert ob.pcopies p { pc with constant := b } })
 
 def doSetAttr (w : World) (o : Nat) (name : String) (a : Arg) : Except Err World :=
   match w.objs[o]? with
@@ -522,6 +531,29 @@ def doWatch (w : World) (o : Nat) (p : String) (target : Nat) (cb : String) : Ex
     else .error .unsupported
   | _, _ => .error .unsupported
 
+def doWatchPartial (w : World) (o : Nat) (p : String) (target : Nat) (cb : String) : Except Err World :=
+  match w.objs[o]?, w.objs[target]? with
+  | some _, some t =>
+    if ((w.cls? t).map (·.hasAttr cb)).getD false then
+      .ok (({ w with nextPid := w.nextPid + 1 }).addWatcher
+        { inst := o, fn := { kind := .partial, owner := target, method := cb, changed := Option.none, pid := w.nextPid },
+          names := [p], precedence := 0 })
+    else .error .unsupported
+  | _, _ => .error .unsupported
+
+/-- `_register_watcher` for `what != 'value'`: `self_[name].watchers[what].append(watcher)` on the
+per-instance Parameter object (created by the access) -/
+def doWatchSlot (w : World) (o : Nat) (p : String) (target : Nat) (cb : String) : Except Err World :=
+  let w := w.touchParam o p
+  match (w.objs[o]?).bind (fun ob => lookup ob.pcopies p), w.objs[target]? with
+  | some pc, some t =>
+    if ((w.cls? t).map (·.hasAttr cb)).getD false then
+      let wt : Watcher := { inst := o, fn := { kind := .bound, owner := target, method := cb, changed := Option.none, pid := 0 },
+                            names := [p], precedence := 0 }
+      .ok (w.setObj o fun ob => { ob with pcopies := insert ob.pcopies p { pc with swatchers := pc.swatchers ++ [wt] } })
+    else .error .unsupported
+  | _, _ => .error .unsupported
+
 def step (w : World) : Op → Except Err World
   | .new cls kwargs => doNew w cls kwargs
   | .set o p a => doSet w o p a
@@ -531,6 +563,8 @@ def step (w : World) : Op → Except Err World
   | .mutAttr o name n => doMutAttr w o name n
   | .watch o p t cb => doWatch w o p t cb
   | .selAdd o p n => doSelAdd w o p n
+  | .watchPartial o p t cb => doWatchPartial w o p t cb
+  | .watchSlot o p t cb => doWatchSlot w o p t cb
 
 /-- a history: stops at the first operation outside the fragment -/
 def runOps : World → List Op → Except Err World
@@ -546,7 +580,8 @@ def Obj.refs (ob : Obj) : List Nat :=
   let ofVal : Val → List Nat := fun v => match v with | .obj o => [o] | _ => []
   let ofW : Watcher → List Nat := fun wt => [wt.inst, wt.fn.owner]
   ob.values.flatMap (fun kv => ofVal kv.2) ++ ob.attrs.flatMap (fun kv => ofVal kv.2) ++
-  ob.watchers.flatMap (fun kv => kv.2.flatMap ofW) ++ ob.dyn.flatMap (fun kv => kv.2.flatMap ofW)
+  ob.watchers.flatMap (fun kv => kv.2.flatMap ofW) ++ ob.dyn.flatMap (fun kv => kv.2.flatMap ofW) ++
+  ob.pcopies.flatMap (fun kv => kv.2.swatchers.flatMap ofW)
 
 def addNew (seen : List Nat) : List Nat → List Nat
   | [] => seen
@@ -566,7 +601,7 @@ def renVal (no nc : Nat) : Val → Val
   | v => v
 
 def renCaller (no np : Nat) (c : Caller) : Caller :=
-  { c with owner := no + c.owner, pid := match c.kind with | .mcaller => np + c.pid | .bound => c.pid }
+  { c with owner := no + c.owner, pid := match c.kind with | .bound => c.pid | _ => np + c.pid }
 
 def renWatcher (no np : Nat) (wt : Watcher) : Watcher :=
   { wt with inst := no + wt.inst, fn := renCaller no np wt.fn }
@@ -574,7 +609,8 @@ def renWatcher (no np : Nat) (wt : Watcher) : Watcher :=
 /-- the deep copy of one object's state, before `__setstate__` -/
 def renObj (no nc np : Nat) (ob : Obj) : Obj :=
   { ob with values := ob.values.map (fun kv => (kv.1, renVal no nc kv.2)),
-            pcopies := ob.pcopies.map (fun kv => (kv.1, { kv.2 with slots := kv.2.slots.map fun s => (nc + s.1, nc + s.2) })),
+            pcopies := ob.pcopies.map (fun kv => (kv.1, { kv.2 with slots := kv.2.slots.map fun s => (nc + s.1, nc + s.2),
+                                                                  swatchers := kv.2.swatchers.map (renWatcher no np) })),
             attrs := ob.attrs.map (fun kv => (kv.1, renVal no nc kv.2)),
             watchers := ob.watchers.map (fun kv => (kv.1, kv.2.map (renWatcher no np))),
             dyn := ob.dyn.map (fun kv => (kv.1, kv.2.map (renWatcher no np))) }
@@ -600,6 +636,9 @@ def rebindWatcher (pol : Policy) (cls : Option ClassDef) (self : Nat) (wt : Watc
           .ok ({ wt with inst := self, fn := { kind := .mcaller, owner := self, method := wt.fn.method, changed := Option.none, pid := pid } }, pid + 1)
         else .error .attributeError
     else .ok ({ wt with inst := self }, pid)
+  | .partial =>
+    -- `get_method_owner(partial)` is None (not a method): the copied callable is kept
+    .ok ({ wt with inst := self }, pid)
   | .bound =>
     -- `elif get_method_owner(fn) is watcher.inst: getattr(self, fn.__name__)`
     if wt.fn.owner = wt.inst then .ok ({ wt with inst := self, fn := { wt.fn with owner := self } }, pid)
